@@ -70,6 +70,15 @@ def gen(tier, rng):
                     calls.insert(at, [calls[at][0], 1 << 16, calls[at][2] + 16 * kind, 0])
                     add(api="deflate", inp=inp, level=level, wrap=[0, 1, 3][(level + kind) % 3], lbuf=[0, 3][pos % 2], mem=pos % 3, calls=calls + [[0, 1 << 16, 0, 1]], tail_ai=n, tail_ao=1 << 16, cap=len(calls) + 400,
                         meta={"family": "invalid-parameters-mid-stream", "cls": cls})
+    # end_of_stream is "non-zero if this is the last input buffer": values other than 1, streaming and one-shot, every level
+    for cls, n in [("text", 700), ("random", 200), ("empty", 0)]:
+        inp = igz.corpus(rng, cls, n)
+        for level in range(4):
+            for ev in (2, 255, 65535):
+                add(api="deflate", inp=inp, level=level, wrap=[0, 1, 3][(level + ev) % 3], lbuf=3, calls=[[n, 1 << 16, 0, ev]], tail_ai=n, tail_ao=1 << 16, cap=60, meta={"family": "end-of-stream-value", "cls": cls})
+                add(api="deflate", inp=inp, level=level, wrap=[1, 3, 0][(level + ev) % 3], lbuf=3, calls=[[n // 2, 1 << 16, [0, 1, 2][ev % 3], 0], [n, 1 << 16, 0, ev], [0, 1 << 16, 0, ev]], tail_ai=n, tail_ao=1 << 16, cap=60,
+                    meta={"family": "end-of-stream-value", "cls": cls})
+                add(api="deflate_stateless", inp=inp, level=level, wrap=[0, 1, 3][(level + ev) % 3], lbuf=3, calls=[[n, n * 2 + 600, [0, 2][ev % 2], ev]], meta={"family": "end-of-stream-value", "cls": cls})
     # end_of_stream announced late (the block header went out in a call with end_of_stream = 0, so the trailer has to add an empty final block):
     # the call that reaches the trailer is offered every output size
     for cls, n in [("text", 300), ("random", 150)] + ([("zeros", 400), ("records", 2000)] if tier == "thorough" else []):
